@@ -576,6 +576,13 @@ def install(w):
     M['panicking::unreachable_display'] = begin_panic
     M['panicking::panic_display'] = begin_panic
     M['rt::begin_panic'] = begin_panic
+    for _n in ('panic', 'panic_fmt', 'panic_explicit', 'unreachable_display', 'panic_display', 'begin_panic',
+               'panic_nounwind', 'panic_str', 'expect_failed', 'unwrap_failed'):
+        M[_n] = begin_panic
+        M['panicking::' + _n] = begin_panic
+        M['option::' + _n] = begin_panic
+        M['result::' + _n] = begin_panic
+    M['assert_failed'] = M['panicking::assert_failed'] if 'panicking::assert_failed' in M else begin_panic
     M['panicking::begin_panic'] = begin_panic
     M['panicking::assert_failed'] = lambda ex, c, a: _panic('assertion `left == right` failed: %r vs %r' % (deref(a[1]), deref(a[2])))
     M['rt::panic_fmt'] = begin_panic
